@@ -38,6 +38,44 @@ type Case struct {
 	BadStep   int    `json:"bad_step"` // -1 none, else index of the step that is broken
 	BadKind   string `json:"bad_kind"` // unknown-id | bad-override
 	Cond      bool   `json:"conditional_steps"`
+	// Prior: the rule set is first loaded with a version that differs in exactly one aspect and then updated to the
+	// version under test ("" = loaded directly): on_error-flipped | backtracking-flipped | last-step-dropped | finalizer-appended
+	Prior string `json:"reached_by_update_from,omitempty"`
+}
+
+var priors = []string{"on_error-flipped", "backtracking-flipped", "last-step-dropped", "finalizer-appended"}
+
+// prior returns the version the update starts from.
+func (cs *Case) prior() (Case, bool) {
+	pc := *cs
+	pc.Prior = ""
+
+	switch cs.Prior {
+	case "on_error-flipped":
+		pc.OnError = !cs.OnError
+	case "backtracking-flipped":
+		if cs.BT == "true" {
+			pc.BT = "false"
+		} else {
+			pc.BT = "true"
+		}
+	case "last-step-dropped":
+		if len(cs.Steps) < 2 {
+			return pc, false
+		}
+
+		pc.Steps = cs.Steps[:len(cs.Steps)-1]
+	case "finalizer-appended":
+		if len(cs.Steps) >= 4 {
+			return pc, false
+		}
+
+		pc.Steps = cs.Steps + "f"
+	default:
+		return pc, false
+	}
+
+	return pc, pc.expectAccepted()
 }
 
 // trace recording script
@@ -289,12 +327,37 @@ func judge(c *engine.Ctx, cs *Case) {
 	rs.Source = "c14"
 	rs.Rules = []rulecfg.Rule{cs.rule("r", "/r", nil)}
 
+	reachedByUpdate := false
+
+	if cs.Prior != "" {
+		pc, ok := cs.prior()
+		if !ok || !cs.expectAccepted() {
+			return
+		}
+
+		prs := &rulecfg.RuleSet{Version: rulecfg.CurrentRuleSetVersion, Name: "c14-prior"}
+		prs.Source = "c14"
+		prs.Rules = []rulecfg.Rule{pc.rule("r", "/r", nil)}
+
+		if perr := proc.OnCreated(prs); perr != nil {
+			c.Violation("well-formed-rule-rejected/prior-version", fmt.Sprintf("%+v: prior version %+v: %v", *cs, pc, perr), cs)
+
+			return
+		}
+
+		reachedByUpdate = true
+	}
+
 	loadErr := func() (e error) {
 		defer func() {
 			if r := recover(); r != nil {
 				e = fmt.Errorf("panic: %v", r)
 			}
 		}()
+
+		if reachedByUpdate {
+			return proc.OnUpdated(rs)
+		}
 
 		return proc.OnCreated(rs)
 	}()
@@ -349,7 +412,12 @@ func judge(c *engine.Ctx, cs *Case) {
 		_, _ = exec.Execute(ctx)
 
 		if strings.Join(sc.trace, ",") != strings.Join(m.want, ",") {
-			c.Violation("effective-pipeline-differs/"+m.mode+"/"+cs.inheritanceShape(),
+			shape := cs.inheritanceShape()
+			if cs.Prior != "" {
+				shape += "/reached-by-update-from-a-version-with-" + cs.Prior
+			}
+
+			c.Violation("effective-pipeline-differs/"+m.mode+"/"+shape,
 				fmt.Sprintf("%+v: request mode %s executed %v, reference %v", *cs, m.mode, sc.trace, m.want), cs)
 		}
 	}
@@ -385,7 +453,8 @@ func judge(c *engine.Ctx, cs *Case) {
 	c.Outcome("backtracking effective=" + fmt.Sprint(cs.expectBacktracking()))
 
 	if got != wantRule {
-		c.Violation(fmt.Sprintf("backtracking-setting-not-effective/rule=%s/default-rule=%v", cs.BT, cs.HasDefault),
+		c.Violation(fmt.Sprintf("backtracking-setting-not-effective/rule=%s/default-rule=%v", cs.BT, cs.HasDefault)+
+			x(cs.Prior != "", "/reached-by-update-from-a-version-with-"+cs.Prior, ""),
 			fmt.Sprintf("%+v: GET /bt/1 matched %s, reference %s", *cs, got, wantRule), cs)
 	}
 
@@ -485,12 +554,14 @@ func Check() *engine.Check {
 			"authentication stage, backtracking off/on) x rule execute lists (every sequence of length 0-3 [quick] / 0-4 [thorough] over " +
 			"authenticator/authorizer/contextualizer/finalizer) x on_error absent/present x backtracking_enabled unset/true/false x operation mode " +
 			"x forward_to absent/present, plus every single step referencing an unknown mechanism or carrying a rejected override and conditional " +
-			"steps; through the real rule factory, rule-set processor, repository and executor with a scripted mechanism factory recording the " +
+			"steps; every accepted rule also reached by an update from a version differing in one aspect (on_error, backtracking, last step " +
+			"dropped, finalizer appended); through the real rule factory, rule-set processor, repository and executor with a scripted mechanism factory recording the " +
 			"executed mechanisms; oracle: acceptance predicate of the statement, reference effective pipeline (three request modes: first " +
 			"authenticator succeeds, authenticators fall through, authentication fails) and behavioural backtracking test. Real part: every ordered " +
 			"pair (thorough: triple) of a menu of 14 rules over REAL mechanisms (production mechanism factory, CEL conditions; valid and malformed " +
 			"overrides and conditions, overrides whose textual rendering coincides) created by one rule factory: each rule is accepted or rejected " +
-			"and behaves according to its own definition whatever was loaded before (also: the same malformed rule again).",
+			"and behaves according to its own definition whatever was loaded before (also: the same malformed rule again). Race pass: rules " +
+			"inheriting a stage of 1-5 steps from the default rule and carrying own finalizers are executed by concurrent requests under the race detector.",
 		Assumptions: []string{"first part: mechanisms are scripted; only which of them run, in which order, is observed"},
 		Shards:      func(string) int { return 16 },
 		Budget: func(tier string) time.Duration {
@@ -500,12 +571,17 @@ func Check() *engine.Check {
 
 			return 3 * time.Minute
 		},
-		Run:    run,
-		Replay: replay,
+		Run:      run,
+		Replay:   replay,
+		RacePass: racePass,
 	}
 }
 
 func run(c *engine.Ctx) {
+	if c.Shard == 0 {
+		engine.RunRacePass(c)
+	}
+
 	maxLen := 3
 	if !c.Quick() {
 		maxLen = 4
@@ -539,8 +615,16 @@ func run(c *engine.Ctx) {
 				for _, bt := range []string{"unset", "true", "false"} {
 					for _, proxy := range []bool{false, true} {
 						for _, fwd := range []bool{false, true} {
-							base := Case{d.has, d.z, d.f, d.e, d.bt, seq, oe, bt, proxy, fwd, -1, "", false}
+							base := Case{d.has, d.z, d.f, d.e, d.bt, seq, oe, bt, proxy, fwd, -1, "", false, ""}
 							judge(c, &base)
+
+							if base.expectAccepted() && !proxy {
+								for _, pr := range priors {
+									u := base
+									u.Prior = pr
+									judge(c, &u)
+								}
+							}
 
 							if oe || bt != "unset" || proxy || !fwd {
 								continue
@@ -575,6 +659,16 @@ func replay(c *engine.Ctx, raw json.RawMessage) {
 		Part string `json:"part"`
 	}
 
+	var rp struct {
+		RacePass bool `json:"race_pass"`
+	}
+
+	if json.Unmarshal(raw, &rp) == nil && rp.RacePass {
+		engine.RunRacePass(c)
+
+		return
+	}
+
 	if err := json.Unmarshal(raw, &probe); err == nil && probe.Part == "real" {
 		replayReal(c, raw)
 
@@ -589,4 +683,12 @@ func replay(c *engine.Ctx, raw json.RawMessage) {
 	}
 
 	judge(c, &cs)
+}
+
+func x(cond bool, a, b string) string {
+	if cond {
+		return a
+	}
+
+	return b
 }
